@@ -52,6 +52,8 @@ def cells(tier, seed):
             out.append((f'tric-{a}-{b}-{c}', geom.from_parameters(a, b, c, 70, 80, 100)))
         if tier == 'thorough' or i % 3 == 0:
             out.append((f'ortho-rot-{a}-{b}-{c}', np.diag([a, b, c]) @ R.T))
+    # slab-like cells: one long axis gives several hundred voxels along it
+    out += [('slab-3-3-60', np.diag([3.0, 3.0, 60.0])), ('slab-3-60-3', np.diag([3.0, 60.0, 3.0])), ('slab-60-3-3', np.diag([60.0, 3.0, 3.0]))]
     return out
 
 
@@ -93,6 +95,8 @@ def eval_volume(coords, M, res):
     T, N = coords.shape[:2]
     traj = concretise.make_trajectory(coords, ['Li'] * N, M)
     viols = []
+    if int(coords.size) % 2 == 0 and T > 1:
+        traj.displacements  # the trajectory may be in either internal representation when the volume is taken
     try:
         vol = trajectory_to_volume(traj, resolution=res)
     except Exception as e:  # noqa: BLE001
@@ -111,7 +115,13 @@ def eval_volume(coords, M, res):
             viols.append(('voxel-edge-outside-[res,2res)', f'axis {ax}: L={lengths[ax]} n={shape[ax]} edge={own} res={res}'))
     E = np.zeros(shape, dtype=int)
     ties = []
-    pts = coords.reshape(-1, 3)
+    # the coordinates that are binned are the positions the trajectory reports (after a displacement round trip they
+    # may differ from the input by an ulp, which matters for samples exactly on a voxel face)
+    reported = np.array(traj.positions)
+    d = reported - np.mod(coords, 1)
+    if reported.shape != coords.shape or np.any(np.abs(d - np.round(d)) > 1e-9):
+        viols.append(('positions-differ-from-input', 'reported positions are not the input coordinates'))
+    pts = reported.reshape(-1, 3)
     ok = True
     for p in pts:
         idx = []
